@@ -210,7 +210,12 @@ Tree* splay_erase(const Key& k, Tree*& t, const Compare& cmp)
         else
         {
             Tree* x = splay(k, t->left, cmp);
-            x->right = t->right;
+            // with duplicate keys x may still have a right subtree (further
+            // items equal to k): append t's right subtree after its last item
+            Tree* m = x;
+            while (m->right != nullptr)
+                m = m->right;
+            m->right = t->right;
             t = x;
         }
         return r;
